@@ -25,6 +25,9 @@ CHECKS = {
 }
 NA = {
 }
+CHECKS['C19'] = dict(tech=T + ' (ChaiScript_Basic::load_file/skip_bom) over a contract model of std::ifstream with the file a symbolic byte array',
+   text='The real load_file+skip_bom are executed symbolically for every file content of every length 0..L (and for a missing file) against a stream model that follows the standard (short read sets eofbit|failbit, failed streams ignore seekg/read): the returned text is exactly the bytes minus one leading UTF-8 BOM; missing file raises file_not_found_error; stream opened and closed once.',
+   note='std::ifstream is a contract model (trusted, written from the standard); content <= 15 bytes; use()/search-path bookkeeping not covered yet')
 ALL = ['C%02d' % i for i in range(1, 21)]
 def main():
     checks = []
